@@ -118,6 +118,21 @@ class _Worker:
                     except OSError:
                         pass
                 signal.signal(signal.SIGINT, signal.SIG_IGN)
+                if SimPool.start_method == "spawn" and SimPool.import_snapshot:
+                    # spawn / forkserver start: the worker has the modules as they were right after import, not as the
+                    # parent has changed them since (module globals rebound later are back to their initial values)
+                    import sys as _sys
+                    for modname, snap in SimPool.import_snapshot.items():
+                        mod = _sys.modules.get(modname)
+                        if mod is None:
+                            continue
+                        d = vars(mod)
+                        for k in list(d):
+                            if k not in snap and not k.startswith("__"):
+                                del d[k]
+                        for k, v in snap.items():
+                            if k not in SimPool.snapshot_keep.get(modname, ()):
+                                d[k] = v
                 _worker_main(p2c_r, c2p_w, initializer, initargs)
             except BaseException:
                 pass
@@ -295,15 +310,26 @@ BIASES = ["uniform", "fifo", "lifo", "stall", "burst"]
 class SimPool:
     """Drop-in for multiprocessing.Pool driven by sim.core.Chooser."""
 
-    STEP_CAP = 4000
+    STEP_CAP = 20000
     sim = None      # (chooser, eventlog, stats dict) installed by the engine before the run
     cpus = None     # simulated os.cpu_count() of this run (the engine patches os.cpu_count to the same number)
+    start_method = "fork"       # "spawn": workers see module globals as they were at import time
+    import_snapshot: dict = {}  # module name -> shallow copy of its globals taken right after import
+    snapshot_keep: dict = {}    # module name -> names the harness patched on purpose (seams), kept as they are
+    fail_create = None          # exception instance to raise from the constructor (resource exhaustion at pool creation)
 
     def __init__(self, processes=None, initializer=None, initargs=(), maxtasksperchild=None, context=None):
         if SimPool.sim is None:
             raise RuntimeError("SimPool used outside a simulation")
         self.chooser, self.log, self.stats = SimPool.sim
         self.stats["seam_hits"] = self.stats.get("seam_hits", 0) + 1
+        if SimPool.fail_create is not None:
+            exc, SimPool.fail_create = SimPool.fail_create, None
+            self._state = "TERMINATE"
+            self._workers = []
+            self.log.add("pool-create-failed", type(exc).__name__)
+            self.stats["pool_create_failed"] = self.stats.get("pool_create_failed", 0) + 1
+            raise exc
         if processes is None:
             # "cpu count" is a property of the machine, hence of the simulated configuration
             processes = SimPool.cpus if SimPool.cpus else 1 + self.chooser.draw(16, "pool.size")
